@@ -126,7 +126,10 @@ PROPS["C08"] = {
 PROPS["C09"] = {
     "runs": (lambda base: (lambda tier: [dict(r, shards=8) for r in base(tier)] + [dict(r, shards=8, opts={"setb": "1"}) for r in base(tier)]))(_net("C09", 900, 18000, 500)),
     "rule": "Histories restricted to booleans + LRA: 1-6 variables plus derived variables new_var(lin) (half of the shards: more of them, and bounds set directly through the public "
-            "set_lb / set_ub at root level with values the model allows - the call and the following propagation must succeed and the bound joins the model), relation literals (5 relations, expression shapes: constants, single "
+            "set_lb / set_ub at root level with values the model allows - the call and the following propagation must succeed and the bound joins the model; bounds with an arbitrary "
+            "root-assigned reason literal and arbitrary, possibly infeasible values - the explanation a failing call leaves behind must follow from the constraints and 'reason => bound'; "
+            "and a client theory that plays the executor's protocol: 'whenever literal p is true, x >= c', set from its propagate() callback with p as the reason, a failing call handing "
+            "the theory's explanation to the sat core as the client's conflict, so that wrong explanations surface as learnt clauses that are not entailed), relation literals (5 relations, expression shapes: constants, single "
             "variable, sums of 2-4 terms with coefficients in +-{1,2,3,1/2,1/3}, repeated/cancelling variables, constants up to 20), implications between relation literals, "
             "assume/negate/pop/next/check orders. Oracles after every successful propagation: every assigned relation literal holds/fails on value() with infinitesimal semantics "
             "(exact GMP evaluation); every assigned theory atom (dump H2) holds on the slack's value; every derived/slack variable equals its defining expression; lb <= value <= ub; "
@@ -288,7 +291,7 @@ PROPS["C01"] = {
     "assumptions": ["int variables are LRA reals without integrality", "constraints in user-defined rule bodies are re-evaluated only for the generated rule shapes (L2p here, C03's rules there)"],
 }
 PROPS["C02"] = {
-    "runs": _prob("C02", 800, 20000, layers=("L0", "L1", "L3", "L2p", "L3b", "L3d"), l0_mult=2, budget_ms=10000),
+    "runs": _prob("C02", 800, 20000, layers=("L0", "L1", "L1b", "L3", "L2p", "L3b", "L3d"), l0_mult=2, budget_ms=10000),
     "rule": "Same generator as C01. (a) Free problems of layers L0/L1 are translated to Z3 (reals, booleans, finite-domain integers for object variables, field accesses as ite chains): "
             "'unsolvable' (false from solve(), unsolvable / inconsistency exception from read() or solve()) while Z3 finds a model is a violation. (b) Planted problems of all layers "
             "(a witness assignment / schedule is drawn first and every emitted constraint is true under it; layer L2p: rule problems with alternative subgoals interacting through a shared "
@@ -337,7 +340,7 @@ PROPS["C06"] = {
     "rule": "Generator of C04/C05 (facts and goals on state variables and reusable resources, whose Interval rule is applied implicitly to facts). Oracle on every reported solution, for every "
             "Active atom read back through the predicates' instance lists: origin <= start <= end <= horizon, duration == end - start, duration >= 0 (exact). Non-trivial: >= 2 active atoms. "
             "Distinct by program text. Layer L3b (half of the shards): atoms that are NOT on state variables / reusable resources - 1-2 plain predicates extending Interval (empty body or "
-            "duration >= d, optionally a rule that introduces another interval atom starting at their end), a plain Impulse predicate, an Agent subclass with an interval and an "
+            "duration >= d, optionally a rule that introduces another interval atom starting at their end), a plain Impulse predicate, a plain class declaring an interval and an impulsive predicate, an Agent subclass with an interval and an "
             "impulsive predicate on 1-2 agents, Produce / Consume atoms on a ConsumableResource; 1-6 facts and goals with constant times, start + duration, windows or free times, "
             "zero-length atoms, bounded horizon; planted around a witness placement, and 1 in 5 problems ill-formed on purpose (constant start after end, impulse beyond the horizon: must "
             "not come back solved with that atom active). Same oracle, plus origin <= at <= horizon for impulses.",
@@ -347,7 +350,7 @@ PROPS["C06"] = {
     "assumptions": [],
 }
 PROPS["C17"] = {
-    "runs": _prob("C17", 2000, 40000, layers=("L1",)),
+    "runs": _prob("C17", 2000, 40000, layers=("L1", "L1b")),
     "rule": "Programs with 1-5 classes (0-2 supertypes each, diamonds included), 0-2 real fields per class set by field initialisers or by constructor parameters through initialiser "
             "lists that call the supertype constructors, 0-2 enums with unions, instances and object / enum variables interleaved so that domains depend on the point of declaration, "
             "then constraints through field accesses on single- and multi-valued variables and object (dis)equalities. The declarations are read first; oracle right after that read(): "
@@ -375,10 +378,10 @@ PROPS["C16"]["assumptions"] = ["literals stay within 18 digits", "eval sub-run: 
 LSAN_SUPP = {"solver_teardown_keeps_flaws": "tools/lsan-kf8.supp", "builtin_type_syntax_trees_kept": "tools/lsan-kf9.supp"}
 PROPS["C18"]["runs"] = (lambda base: (lambda tier: base(tier) + [
     {"cfg": "dbg", "harness": "h_prob", "cases": 600 if tier == "quick" else 20000, "max_size": 300, "shards": 2, "budget_ms": 20000, "excl": list(GEN_EXCL),
-     "opts": {"layer": l}, "replay_args": ["--crash-violation"]} for l in ("L0", "L1", "L2", "L3", "L3b", "L3d")] + [
+     "opts": {"layer": l}, "replay_args": ["--crash-violation"]} for l in ("L0", "L1", "L1b", "L2", "L3", "L3b", "L3d")] + [
     # the same programs with LeakSanitizer at the end of every case (about 0.3 s per case: matching the suppressions of the known leak findings needs symbolised stacks)
     {"cfg": "dbg", "harness": "h_prob", "sub": "leaks", "cases": 50 if tier == "quick" else 2500, "max_size": 300, "shards": 2 if tier == "quick" else 4, "budget_ms": 20000, "excl": list(GEN_EXCL),
-     "opts": {"layer": l, "leakcheck": "1"}, "leak": True, "replay_args": ["--crash-violation"]} for l in ("L0", "L1", "L2", "L3", "L3b", "L3d")] + [
+     "opts": {"layer": l, "leakcheck": "1"}, "leak": True, "replay_args": ["--crash-violation"]} for l in ("L0", "L1", "L1b", "L2", "L3", "L3b", "L3d")] + [
     {"kind": "fuzz", "cfg": "fz", "harness": "fz_lang", "sub": "fuzz", "cases": 6000 if tier == "quick" else 400000, "max_size": 4096, "shards": 8 if tier == "quick" else 16,
      "seed_corpus": "corpus/lang", "dict": "corpus/riddle.dict"}]))(PROPS["C18"]["runs"])
 PROPS["C18"]["rule"] += (" programs (valid typed programs of the C01 generator, layers L0/L1/L3, through read()+solve() in the Debug+ASan+UBSan build): any signal, assertion failure, std::terminate or "
@@ -394,7 +397,9 @@ PROPS["C18"]["rule"] += (" programs (valid typed programs of the C01 generator, 
 def _c03(tier):
     q = tier == "quick"
     n = 450 if q else 40000
-    runs = [{"cfg": "dbg-l", "harness": "h_exec", "cases": n, "max_size": 300, "shards": 8, "budget_ms": 20000, "excl": list(GEN_EXCL)}]
+    runs = [{"cfg": "dbg-l", "harness": "h_exec", "cases": n, "max_size": 300, "shards": 6, "budget_ms": 20000, "excl": list(GEN_EXCL)},
+            # rings of mutually recursive predicates: opportunities for circular causal support (structural level only)
+            {"cfg": "dbg-l", "harness": "h_exec", "sub": "rings", "cases": 60 if q else n // 20, "max_size": 300, "shards": 4, "budget_ms": 3000, "excl": list(GEN_EXCL), "opts": {"layer": "L2c"}}]
     for c in (["dbg", "dbg-hadd-ci"] if q else ALL_CFGS):
         runs.append({"cfg": c, "harness": "h_prob", "cases": n, "max_size": 300, "shards": 3 if q else 2, "budget_ms": 20000, "excl": list(GEN_EXCL)})
         runs.append({"cfg": c, "harness": "h_prob", "cases": n, "max_size": 300, "shards": 1, "budget_ms": 20000, "excl": list(GEN_EXCL), "opts": {"layer": "L2p"}})
@@ -414,7 +419,9 @@ PROPS["C03"] = {
             "at least one alternative is in the plan, and no goal of a predicate whose rule is 'false' is Active (counter applied_rules_checked). Half of the problems declare a base "
             "predicate B(real c) { c >= 1.0; [goal sb = new Q0(a: c);] } from which some predicates derive, half of those with an empty body of their own: the inherited rule must be "
             "applied to every active goal of a derived predicate. One shard per configuration runs the shared-variable problems of C01's layer L2p (every top-level goal active, one "
-            "alternative's subgoal in the plan). "
+            "alternative's subgoal in the plan). Two shards of the listeners configuration run layer L2c: a ring of 2-3 mutually recursive predicates whose rules offer a subgoal on the "
+            "next predicate of the ring, a cheap shortcut that is infeasible only once chosen and a sound but long chain; one goal per ring predicate with equal arguments, so that a plan "
+            "supported by nothing but its own ring is within reach of the search - the acyclicity clause of the structural level decides. "
             "Non-trivial: the solution contains >= 1 unified and >= 1 active atom. Distinct by program text.",
     "technique": "property-based testing; validity predicates over the reported plan and over the derivation graph recorded through the public listener interface",
     "level_text": "Random rule structures with many unification opportunities; the derivation graph of every solution is validated. The unification target is read from the resolver's own description "
